@@ -356,7 +356,7 @@ def signature(desc):
     write ports" are deliberately left out."""
     cfg = desc.get("cfg") or {}
     t = cfg.get("transparent")
-    return (str(desc.get("component")),
+    return (str(desc.get("component")), str(cfg.get("memory_type")),
             "gran" if cfg.get("granularity") else "nogran",
             "wp>=2" if (cfg.get("write_ports") or 0) >= 2 else "wp=1",
             "transparent" if t not in (False, "none", None) else "opaque",
